@@ -1,7 +1,7 @@
 /-
 C05 — property theorems: discipline caches are transparent.
 Only property theorems (and the few definitions needed to state them) live here; helper lemmas
-are in `Lemmas/C05.lean`.
+are in `Lemmas/C05.lean`, `Lemmas/C05Index.lean` and `Lemmas/C05Hist.lean`.
 
 Conventions: `cfg.cow = true`, `cfg.coh = true` say that the cache stores copies and hands out
 copies (true for every cache kind under `Policy.copy`, the repaired code; always true for the
@@ -10,7 +10,7 @@ shared-memory and HDF5 caches). `reach cfg d ops` is the state after an arbitrar
 reopen, clear), `d` is an arbitrary body (`run`, `jacf` are arbitrary functions) and the hash of
 each call is an arbitrary number carried by the operation.
 -/
-import GemseoVerif.Lemmas.C05
+import GemseoVerif.Lemmas.C05Hist
 import Mathlib.Analysis.Real.Sqrt
 import Mathlib.Tactic.Linarith
 import Mathlib.Tactic.NormNum
@@ -107,7 +107,7 @@ theorem jacobian_complete (cfg : Cfg) (d : Disc) (st : State) (all : Bool)
     (xs : List (Arr × Option Nat)) (h : Nat) (hne : linEarly cfg all = false)
     (hbody : ∀ x, hasBlocks (d.jacf x) (linIn cfg all) (linOut cfg all) = true) :
     hasBlocks (linearize cfg d st all true xs h).2 (linIn cfg all) (linOut cfg all) = true := by
-  unfold linearize
+  unfold linearize linTail
   simp only [hne, Bool.false_eq_true, if_false, if_true]
   by_cases hc : ((execute cfg d st xs h).1.hasJac && !(execute cfg d st xs h).1.dJac.isEmpty &&
       hasBlocks (execute cfg d st xs h).1.dJac (linIn cfg all) (linOut cfg all)) = true
@@ -207,6 +207,79 @@ theorem caller_mutation_entries (cfg : Cfg) (d : Disc) (hcow : cfg.cow = true)
     · exact key _
     · rfl
   · rfl
+
+/-! ### Full caches: run count, distinct entries, entries never overwritten, reopen
+
+`hf` is an arbitrary hash function (collisions allowed); `HistHashOK hf cfg d {} ops` says that every
+call of the history carries the hash `hf x` of the inputs it is called with. -/
+
+/-- **runs_at_most_once.** With a full cache (memory, shared or not, or HDF5 — also reopened) and
+    exact matching, whatever the hash function, after every history without `clear` the body has
+    been run at most once per distinct input value: the run log has no duplicate, and the run
+    counter is its length. (The body has at least one output: a discipline without outputs is
+    never cached.) -/
+theorem runs_at_most_once (hf : Vals → Nat) (cfg : Cfg) (d : Disc)
+    (hk : cfg.kind.isFull = true) (ht : cfg.tol = 0) (hcow : cfg.cow = true)
+    (hcoh : cfg.coh = true) (hout : ∀ x, d.run x ≠ []) (ops : List Op)
+    (hops : HistHashOK hf cfg d {} ops) (hnc : Op.clear ∉ ops) :
+    (reach cfg d ops).runLog.Nodup ∧ (reach cfg d ops).nRun = (reach cfg d ops).runLog.length := by
+  have h0 : RunInv hf d {} :=
+    ⟨inv_init d, idxInv_empty hf, (fun x hx => by cases hx), List.nodup_nil⟩
+  exact ⟨(reachFrom_runInv ops {} hk ht hcow hcoh hout hops hnc h0).nodup,
+    reachFrom_nRun ops {} hcoh rfl⟩
+
+/-- **entries_inputs_distinct** (`len_eq_distinct_inputs`). Whatever the hash function (collisions
+    included) and the tolerance, no two entries of a full cache have the same inputs: `len(cache)`
+    is the number of distinct inputs stored. -/
+theorem entries_inputs_distinct (hf : Vals → Nat) (cfg : Cfg) (d : Disc) (hcow : cfg.cow = true)
+    (hcoh : cfg.coh = true) (ops : List Op) (hops : HistHashOK hf cfg d {} ops)
+    (i j : Nat) (ei ej : Entry) (hi : (reach cfg d ops).full.entry? i = some ei)
+    (hj : (reach cfg d ops).full.entry? j = some ej) (hv : vals ei.inputs = vals ej.inputs) :
+    i = j :=
+  (reachFrom_idx ops {} hcow hcoh hops (idxInv_empty hf)).distinct i j ei ej hi hj hv
+
+/-- **entry_never_overwritten** (`jacobian_then_outputs`, `outputs_then_jacobian`). From any state,
+    whatever happens next short of `clear` — outputs stored after the Jacobian or the Jacobian after
+    the outputs, for this input or for colliding ones, a reopen — an existing entry keeps its index,
+    its inputs, its hash and every group (outputs, Jacobian) it already has. -/
+theorem entry_never_overwritten (cfg : Cfg) (d : Disc) (hcow : cfg.cow = true)
+    (hcoh : cfg.coh = true) (st : State) (ops : List Op) (hnc : Op.clear ∉ ops)
+    (i : Nat) (e : Entry) (he : st.full.entry? i = some e) :
+    ∃ e', (reachFrom cfg d st ops).full.entry? i = some e' ∧ e'.inputs = e.inputs ∧
+      e'.hash = e.hash ∧ (∀ oc, e.outputs = some oc → e'.outputs = some oc) ∧
+      (∀ j, e.jac = some j → e'.jac = some j) :=
+  reachFrom_ext ops st hcow hcoh hnc i e he
+
+/-- **reopen_same_entries.** A file cache reopened after any history has the same entries and, with
+    exact matching, finds for every request exactly the entry the cache found before the reopen
+    (whatever the order in which h5py lists the entries and whatever the hash function). -/
+theorem reopen_same_entries (hf : Vals → Nat) (cfg : Cfg) (d : Disc) (hcow : cfg.cow = true)
+    (hcoh : cfg.coh = true) (ops : List Op) (hops : HistHashOK hf cfg d {} ops)
+    (heap : List Arr) (x : Vals) :
+    (reach cfg d ops).full.reopen.entries = (reach cfg d ops).full.entries ∧
+    (reach cfg d ops).full.reopen.lookup heap 0 x (hf x) =
+      (reach cfg d ops).full.lookup heap 0 x (hf x) := by
+  have hI : IdxInv hf (reach cfg d ops).full := reachFrom_idx ops {} hcow hcoh hops (idxInv_empty hf)
+  generalize (reach cfg d ops).full = f at hI
+  have hI' := reopen_idx hI
+  refine ⟨rfl, ?_⟩
+  -- a found index designates an entry with inputs `x`; such an entry is found by both
+  have key : ∀ (g g' : Full), IdxInv hf g → IdxInv hf g' → g'.entries = g.entries →
+      ∀ i, g.lookup heap 0 x (hf x) = some i → g'.lookup heap 0 x (hf x) = some i := by
+    intro g g' hg hg' hent i hl
+    obtain ⟨e, he, hc⟩ := lookup_some hl
+    rw [derefs_eq_vals heap _ (hg.inVal e (entry?_mem he))] at hc
+    have hx : x = vals e.inputs := (cmp_zero_iff _ _).mp hc
+    have he' : g'.entry? i = some e := by rw [entry?_same_entries hent]; exact he
+    rw [hx]; exact lookup_finds hg' heap he'
+  cases h1 : f.lookup heap 0 x (hf x) with
+  | some i => exact key f f.reopen hI hI' rfl i h1
+  | none =>
+    cases h2 : f.reopen.lookup heap 0 x (hf x) with
+    | none => rfl
+    | some i =>
+      have := key f.reopen f hI' hI rfl i h2
+      rw [h1] at this; cases this
 
 /-! ### Meaning of the square-root-free tolerance test -/
 
@@ -310,6 +383,60 @@ def exCfg (kind : Kind) (tol : Rat) (pol : Policy) : Cfg :=
   { kind := kind, tol := tol, pol := pol, inNames := ["a"], defaults := [none], outNames := ["y"],
     dIn := ["a"], dOut := ["y"], runSetsJac := false }
 
+/-- Non-vacuity of `HistHashOK`: every history can be given the hashes of an arbitrary hash
+    function `hf` (this is what the real code does: it hashes the inputs of each call). -/
+def fixHash (hf : Vals → Nat) (cfg : Cfg) (st : State) : Op → Op
+  | .exec args _ =>
+    (match prepare cfg st args with
+     | some xs => .exec args (hf (xs.map (·.1)))
+     | none => .exec args 0)
+  | .lin all exe args _ =>
+    (match prepare cfg st args with
+     | some xs => .lin all exe args (hf (xs.map (·.1)))
+     | none => .lin all exe args 0)
+  | op => op
+
+def fixHist (hf : Vals → Nat) (cfg : Cfg) (d : Disc) : State → List Op → List Op
+  | _, [] => []
+  | st, op :: ops =>
+    fixHash hf cfg st op :: fixHist hf cfg d (step cfg d st (fixHash hf cfg st op)).1 ops
+
+theorem fixHash_ok (hf : Vals → Nat) (cfg : Cfg) (st : State) (op : Op) :
+    OpHashOK hf cfg st (fixHash hf cfg st op) := by
+  intro args h xs hop hp
+  cases op with
+  | exec a h0 =>
+    simp only [fixHash] at hop
+    rcases hop with hop | ⟨_, _, hop⟩
+    · cases hpa : prepare cfg st a with
+      | none => simp only [hpa, Op.exec.injEq] at hop; rw [← hop.1, hpa] at hp; cases hp
+      | some xs' =>
+        simp only [hpa, Op.exec.injEq] at hop
+        rw [← hop.1, hpa] at hp; cases hp
+        exact hop.2.symm
+    · cases hpa : prepare cfg st a <;> simp [hpa] at hop
+  | lin al ex a h0 =>
+    simp only [fixHash] at hop
+    rcases hop with hop | ⟨_, _, hop⟩
+    · cases hpa : prepare cfg st a <;> simp [hpa] at hop
+    · cases hpa : prepare cfg st a with
+      | none => simp only [hpa, Op.lin.injEq] at hop; rw [← hop.2.2.1, hpa] at hp; cases hp
+      | some xs' =>
+        simp only [hpa, Op.lin.injEq] at hop
+        rw [← hop.2.2.1, hpa] at hp; cases hp
+        exact hop.2.2.2.symm
+  | new _ _ => rcases hop with hop | ⟨_, _, hop⟩ <;> simp [fixHash] at hop
+  | modify _ _ => rcases hop with hop | ⟨_, _, hop⟩ <;> simp [fixHash] at hop
+  | keep _ _ => rcases hop with hop | ⟨_, _, hop⟩ <;> simp [fixHash] at hop
+  | reopen => rcases hop with hop | ⟨_, _, hop⟩ <;> simp [fixHash] at hop
+  | clear => rcases hop with hop | ⟨_, _, hop⟩ <;> simp [fixHash] at hop
+
+theorem fixHist_ok (hf : Vals → Nat) (cfg : Cfg) (d : Disc) (st : State) (ops : List Op) :
+    HistHashOK hf cfg d st (fixHist hf cfg d st ops) := by
+  induction ops generalizing st with
+  | nil => trivial
+  | cons op ops ih => exact ⟨fixHash_ok hf cfg st op, ih _⟩
+
 /-- A history with a hit after an in-place modification of the array passed in first. -/
 def exOps : List Op :=
   [.new 1 [0], .exec [("a", 1)] 7, .modify 1 [1], .new 2 [1], .exec [("a", 2)] 8]
@@ -346,5 +473,15 @@ example : (outputs (exCfg .simple 0 ⟨true, false⟩) exDisc {} exOpsHit).getLa
     some (.data [[5]]) := by decide +kernel
 example : (outputs (exCfg .simple 0 Policy.copy) exDisc {} exOpsHit).getLast? =
     some (.data [[0]]) := by decide +kernel
+
+-- `runs_at_most_once` on a concrete colliding hash (every input hashes to 0): four calls, two runs
+example : (reach (exCfg .hdf5 0 Policy.copy) exDisc
+    (fixHist (fun _ => 0) (exCfg .hdf5 0 Policy.copy) exDisc {}
+      [.new 1 [0], .exec [("a", 1)] 9, .new 2 [1], .exec [("a", 2)] 9, .reopen,
+       .exec [("a", 1)] 9, .lin true true [("a", 2)] 9])).nRun = 2 := by decide +kernel
+example : ((reach (exCfg .hdf5 0 Policy.copy) exDisc
+    (fixHist (fun _ => 0) (exCfg .hdf5 0 Policy.copy) exDisc {}
+      [.new 1 [0], .exec [("a", 1)] 9, .new 2 [1], .exec [("a", 2)] 9, .reopen,
+       .exec [("a", 1)] 9, .lin true true [("a", 2)] 9])).full.entries.length = 2) := by decide +kernel
 
 end GV.C05
